@@ -58,6 +58,7 @@ EmptyEp(nch) ==
     expDel |-> <<>>,          \* deliveries the model expects the hooks to report: <<[ch, len]>>
     setupRx |-> FALSE,        \* a set-up chunk was received while Connected (until the next snap)
     snapNext |-> 0, snapCum |-> 0, snapTag |-> 0, hasSnap |-> FALSE,
+    fragOpen |-> FALSE, fragCh |-> 0, fragSsn |-> 0,   \* the message whose fragments are being given TSNs
     closedCh |-> {},          \* channels whose Close this side has announced: their data is discarded
     closingCh |-> {},         \* channels this side is closing (close call started): whether a message in flight is
                               \* still delivered depends on a race, so they are left out of the EXT comparison
@@ -189,11 +190,20 @@ TxChunks(e, b, cs, k) ==
     IF c.t # 0 THEN TxChunks(e, b, cs, k + 1)
     ELSE IF c.tsn = e.nextT
       THEN \* first transmission with the expected TSN
-           LET e2 == [e EXCEPT !.sq = @ \cup {[tsn |-> c.tsn, len |-> c.ulen, ch |-> c.ch, acked |-> FALSE]},
-                               !.nextT = @ + 1, !.since = @ + c.ulen]
+           LET isB == (c.f \div 2) % 2 = 1
+               isE == c.f % 2 = 1
+               \* the fragments of one message occupy consecutive TSNs (send_data_raw enqueues them under
+               \* one lock): a first fragment only when no message is open, any other fragment only as the
+               \* continuation of the open message
+               contig == IF isB THEN ~e.fragOpen ELSE (e.fragOpen /\ e.fragCh = c.ch /\ e.fragSsn = c.ssn)
+               e2 == [e EXCEPT !.sq = @ \cup {[tsn |-> c.tsn, len |-> c.ulen, ch |-> c.ch, acked |-> FALSE]},
+                               !.nextT = @ + 1, !.since = @ + c.ulen,
+                               !.fragOpen = ~isE, !.fragCh = c.ch, !.fragSsn = c.ssn]
                b2 == Chk(b, ~e.hasRwnd \/ e2.since <= e.rwnd + MTU, "C13", "NewDataWithinWindow",
                          [tsn |-> c.tsn, since |-> e2.since, rwnd |-> e.rwnd])
-           IN TxChunks(e2, b2, cs, k + 1)
+               b3 == Chk(b2, contig, "C12", "FragmentsContiguous",
+                         [tsn |-> c.tsn, ch |-> c.ch, ssn |-> c.ssn, flags |-> c.f, open |-> e.fragOpen, openCh |-> e.fragCh])
+           IN TxChunks(e2, b3, cs, k + 1)
     ELSE IF TsnGT(e.nextT, c.tsn)
       THEN \* retransmission: the chunk must still be unacknowledged by every SACK processed so far
            LET live == \E x \in e.sq : x.tsn = c.tsn /\ ~x.acked
